@@ -343,6 +343,75 @@ def record_order_check(R, oid, key):
     return {"confirmed": False, "detail": "strace: nothing under A/ or B/ changes after the new archive is renamed into place"}
 
 
+def type_clash_check(R, oid, key):
+    """a name that is a regular file on one side and a directory on the other (A replaced the synced directory d/ by a file d while
+    B created d/new and edited d/x): whatever the run does - it may well stop with an error - the one-sided creation and the edit
+    must still exist on at least one side afterwards"""
+    steps = [{"set": ["A", "d/x", hx(b"x-v1")]}, {"set": ["B", "d/x", hx(b"x-v1")]}, {"set": ["A", "keep", hx(b"k")]}, {"set": ["B", "keep", hx(b"k")]}, {"run": True},
+             {"dir_to_file": ["A", "d", hx(b"d-is-a-file-now-on-A")]}, {"set": ["B", "d/new", hx(b"created-on-B-only")]}, {"set": ["B", "d/x", hx(b"x-v2-edited-on-B")]}, {"run": True}]
+    case = {"fn": "bisync_history", "steps": steps}
+    for prof in ("dev", "release"):
+        r = run_cases([case], prof)[0]
+        if "panic" in r or "crash" in r:
+            c = dict(case)
+            c["observed"] = {prof: str(r)[:300]}
+            return {"confirmed": True, "replay_path": R.save_replay(oid, c), "key": key, "detail": "bisync over a file-vs-directory name clash (%s): panic/crash %s" % (prof, str(r)[:160])}
+        runs = r.get("runs", [])
+        if len(runs) < 2:
+            continue
+        last = runs[-1]
+        have = {v.get("data") for side in ("A", "B") for v in last[side].values()}
+        lost = [t for t in (b"created-on-B-only", b"x-v2-edited-on-B", b"d-is-a-file-now-on-A") if hx(t) not in have]
+        if lost:
+            c = dict(case)
+            c["observed"] = {prof: {side: {k: v.get("data") for k, v in last[side].items()} for side in ("A", "B")}}
+            c["deviation"] = "after the run these versions exist on NEITHER side: %s" % [t.decode() for t in lost]
+            return {"confirmed": True, "replay_path": R.save_replay(oid, c), "key": key,
+                    "detail": "bisync over a file-vs-directory name clash (%s, run %s): %s" % (prof, "ok" if last.get("ok") else "failed: %s" % last.get("err"), c["deviation"])}
+    return {"confirmed": False, "detail": "a file-vs-directory name clash loses no version (the run may stop with an error)"}
+
+
+def archive_write_order_check(R, oid, key):
+    """real system calls of Archive::save inside a bisync run: every byte of the new record is written to `<archive>.tmp` and the
+    file is fsync'ed BEFORE `<archive>.tmp` is renamed over the archive - nothing is written to the archive after that rename
+    (a record that is renamed first and filled afterwards is, at a kill in between, a torn record under the live name)"""
+    import re
+    c = lambda s_: hx(s_.encode())
+    steps = [{"set": ["A", "keep", c("k")]}, {"set": ["B", "keep", c("k")]}, {"set": ["A", "g", c("g")]}, {"set": ["B", "g", c("g")]}, {"run": True},
+             {"set": ["A", "g", None]}, {"run": True}]
+    case = {"fn": "bisync_history", "steps": steps}
+    for prof in ("dev", "release"):
+        ev, res = hubnative.strace_case(case, prof)
+        renamed, synced_since_write, wrote = False, False, False
+        for name, args, rc in ev:
+            if name == "write" and args.startswith("1<") and '"{\\"' in args:
+                break
+            fdpath = re.match(r"\d+<([^>]*)>", args)
+            fdpath = fdpath.group(1) if fdpath else ""
+            breach = None
+            if name == "write" and fdpath.endswith(".json.tmp"):
+                wrote, synced_since_write = True, False
+            elif name in ("fsync", "fdatasync") and fdpath.endswith(".json.tmp"):
+                synced_since_write = True
+            elif name in ("rename", "renameat", "renameat2"):
+                ps = re.findall(r'"([^"]*)"', args)
+                if len(ps) >= 2 and ps[0].endswith(".json.tmp") and ps[1].endswith(".json"):
+                    if not wrote:
+                        breach = "the new record is renamed into place before anything was written to it"
+                    elif not synced_since_write:
+                        breach = "the new record is renamed into place with bytes written after its last fsync (or never fsync'ed)"
+                    renamed, wrote, synced_since_write = True, False, False
+            elif name == "write" and renamed and re.search(r"copia[^>]*\.json$", fdpath):
+                breach = "the archive is written to AFTER it was renamed into place: write(%s)" % args[:80]
+            if breach:
+                cc = dict(case)
+                cc["observed"] = {prof: {"syscall": [name, args[:200], rc]}}
+                cc["deviation"] = breach
+                cc["strace"] = True
+                return {"confirmed": True, "replay_path": R.save_replay(oid, cc), "key": key, "detail": "real system calls of Archive::save (%s): %s" % (prof, breach)}
+    return {"confirmed": False, "detail": "strace: the new record is completely written and fsync'ed before it is renamed over the archive, and never written afterwards"}
+
+
 def make_witness(R, pid, what):
     def w(name, model, neg):
         oid = "%s/%s" % (pid, what)
@@ -363,6 +432,13 @@ def make_witness(R, pid, what):
             if r["confirmed"]:
                 return r
             r = long_name_check(R, oid, key)
+            if r["confirmed"]:
+                return r
+            r = type_clash_check(R, oid, key)
+            if r["confirmed"]:
+                return r
+        if what == "save":
+            r = archive_write_order_check(R, oid, key)
             if r["confirmed"]:
                 return r
         if what == "run" and "saved-only-after" in name:
